@@ -173,3 +173,14 @@ mod tests {
         assert!(snapshots.is_empty());
     }
 }
+
+#[cfg(feature = "verif")]
+impl SnapshotList {
+    /// Sequence numbers of the live snapshots, oldest first.
+    pub(crate) fn verif_sequence_numbers(&self) -> Vec<u64> {
+        self.list
+            .iter()
+            .map(|node| node.read().element.sequence_number())
+            .collect()
+    }
+}
